@@ -6,11 +6,18 @@ package main
 // dereference). Plain `p.functions = …` (replacing the interpreter's own slice header) is not a write through. The list must be empty.
 // Limit of the syntactic rule: writes through a local alias (`f := p.functions[i]; f.Body[0] = …`) are not seen; the harness's
 // before/after dump comparison covers those.
+//
+// Part 2b (programMethodWrites): the same question asked of the Program types themselves — every method of parser.Program,
+// resolver.ResolvedProgram and compiler.Program (what an interpreter can call on the shared Program: IterVars, IterFuncs, LookupFunc,
+// LookupVar, String, Disassemble, …): statements whose target is rooted at the receiver, or at a local alias of something reached
+// from the receiver (`res := r.resolver; res.cache = …`), at least one step deep. A method that fills a cache inside the Program on
+// first use (seeded C19-q2) is listed here. The list must be empty.
 
 import (
 	"fmt"
 	"go/ast"
 	"go/token"
+	"strings"
 )
 
 var c19Shared = map[string]bool{"program": true, "functions": true, "nums": true, "strs": true, "regexes": true}
@@ -103,6 +110,107 @@ func init() {
 			s += "\n  " + it
 		}
 		s += "]\n"
+		s += c19MethodWrites()
 		return "C19Writes.lean", s + footer("C19Writes")
 	})
+}
+
+var c19ProgramTypes = []struct{ dir, typ string }{
+	{"parser", "Program"}, {"internal/resolver", "ResolvedProgram"}, {"internal/compiler", "Program"},
+}
+
+// c19RootIdent: the identifier an lvalue/expression is rooted at and the number of index/field/deref steps taken from it.
+func c19RootIdent(e ast.Expr) (string, int) {
+	depth := 0
+	for {
+		switch v := e.(type) {
+		case *ast.IndexExpr:
+			depth++
+			e = v.X
+		case *ast.SliceExpr:
+			depth++
+			e = v.X
+		case *ast.StarExpr:
+			depth++
+			e = v.X
+		case *ast.ParenExpr:
+			e = v.X
+		case *ast.UnaryExpr:
+			if v.Op != token.AND {
+				return "", 0
+			}
+			e = v.X
+		case *ast.SelectorExpr:
+			depth++
+			e = v.X
+		case *ast.Ident:
+			return v.Name, depth
+		default:
+			return "", 0
+		}
+	}
+}
+
+func c19MethodWrites() string {
+	var items []string
+	for _, pt := range c19ProgramTypes {
+		for _, rel := range goFiles(pt.dir) {
+			if strings.HasSuffix(rel, "_test.go") {
+				continue
+			}
+			f := parseFile(rel)
+			for _, d := range f.Decls {
+				fd, ok := d.(*ast.FuncDecl)
+				if !ok || fd.Body == nil || fd.Recv == nil || len(fd.Recv.List) == 0 || len(fd.Recv.List[0].Names) == 0 {
+					continue
+				}
+				if typeName(fd.Recv.List[0].Type) != pt.typ {
+					continue
+				}
+				shared := map[string]bool{fd.Recv.List[0].Names[0].Name: true} // the receiver and local aliases of what it reaches
+				add := func(what string, e ast.Expr) {
+					if root, depth := c19RootIdent(e); shared[root] && depth > 0 {
+						items = append(items, fmt.Sprintf("(%s, %s, %s, %s)", leanStr(rel), leanStr(pt.typ+"."+fd.Name.Name), leanStr(what), leanStr(src(e))))
+					}
+				}
+				ast.Inspect(fd.Body, func(n ast.Node) bool {
+					switch v := n.(type) {
+					case *ast.AssignStmt:
+						if v.Tok == token.DEFINE {
+							for i, l := range v.Lhs {
+								if id, ok := l.(*ast.Ident); ok && i < len(v.Rhs) && len(v.Lhs) == len(v.Rhs) {
+									if root, depth := c19RootIdent(v.Rhs[i]); shared[root] && depth > 0 {
+										shared[id.Name] = true
+									}
+								}
+							}
+						} else {
+							for _, l := range v.Lhs {
+								add("assign", l)
+							}
+						}
+					case *ast.IncDecStmt:
+						add("incdec", v.X)
+					case *ast.CallExpr:
+						if id, ok := v.Fun.(*ast.Ident); ok && len(v.Args) > 0 {
+							switch id.Name {
+							case "copy", "delete", "clear":
+								add(id.Name, v.Args[0])
+							}
+						}
+					}
+					return true
+				})
+			}
+		}
+	}
+	s := "/-- (file, method, kind, target) of every statement in a method of the Program types that writes into the Program -/\n"
+	s += "def programMethodWrites : List (String × String × String × String) := ["
+	for i, it := range items {
+		if i > 0 {
+			s += ","
+		}
+		s += "\n  " + it
+	}
+	return s + "]\n"
 }
